@@ -19,9 +19,35 @@ pub struct ScriptCase {
     /// that handles `completions <shell>` after parsing)
     #[serde(default)]
     pub parsed_first: Option<Vec<String>>,
+    /// produce the scripts through `generate_to` (a file in a scratch directory) instead of `generate` (a writer)
+    #[serde(default)]
+    pub via_file: bool,
 }
 
 pub const SHELLS: &[&str] = &["bash", "zsh", "fish", "powershell", "elvish", "nushell"];
+
+/// The same through `generate_to`: the script is written to a file named by the generator in a scratch directory.
+pub fn gen_script_to_file(shell: &str, cmd: &clap::Command, bin: &str) -> Result<String, PanicInfo> {
+    use clap_complete::generate_to;
+    static N: std::sync::atomic::AtomicUsize = std::sync::atomic::AtomicUsize::new(0);
+    let dir = std::env::temp_dir().join(format!("verif-c16-{}-{}", std::process::id(), N.fetch_add(1, std::sync::atomic::Ordering::Relaxed)));
+    let _ = std::fs::create_dir_all(&dir);
+    let r = catch(|| {
+        let mut c = cmd.clone();
+        let path = match shell {
+            "bash" => generate_to(Bash, &mut c, bin, &dir),
+            "zsh" => generate_to(Zsh, &mut c, bin, &dir),
+            "fish" => generate_to(Fish, &mut c, bin, &dir),
+            "powershell" => generate_to(PowerShell, &mut c, bin, &dir),
+            "elvish" => generate_to(Elvish, &mut c, bin, &dir),
+            _ => generate_to(clap_complete_nushell::Nushell, &mut c, bin, &dir),
+        }
+        .expect("scratch directory is writable");
+        String::from_utf8_lossy(&std::fs::read(path).expect("generated file is readable")).into_owned()
+    });
+    let _ = std::fs::remove_dir_all(&dir);
+    r
+}
 
 pub fn gen_script(shell: &str, cmd: &clap::Command, bin: &str) -> Result<String, PanicInfo> {
     catch(|| {
@@ -459,6 +485,7 @@ impl Property for Scripts {
         let bin = (*t.pick(&["prog", "my-prog", "p"])).to_owned();
         spec.name = bin.clone();
         spec.bin_name = None;
+        let mut rename: Option<&str> = None;
         // queries
         let mut queries = Vec::new();
         let nq = t.range(4, 10);
@@ -515,7 +542,16 @@ impl Property for Scripts {
         } else {
             None
         };
-        ScriptCase { spec, bin, queries, parsed_first }
+        // the binary is not always called like the `Command` (crate `my_prog`, binary `my-prog`); the scripts are for the
+        // name handed to the generator
+        if t.chance(1, 4) {
+            rename = Some(*t.pick(&["my_prog", "prog-cli", "app"]));
+        }
+        let via_file = t.chance(1, 4);
+        if let Some(n) = rename {
+            spec.name = n.to_owned();
+        }
+        ScriptCase { spec, bin, queries, parsed_first, via_file }
     }
     fn run(&self, case: &ScriptCase, ctx: &mut Ctx) -> Verdict {
         if case.bin.is_empty() || case.bin.contains(' ') {
@@ -543,7 +579,7 @@ impl Property for Scripts {
         let has_dbl = levels.iter().any(|l| l.path.iter().any(|p| p.contains("__")));
         let mut scripts: BTreeMap<&str, String> = BTreeMap::new();
         for shell in SHELLS {
-            let s1 = match gen_script(shell, &cmd, &case.bin) {
+            let s1 = match if case.via_file { gen_script_to_file(shell, &cmd, &case.bin) } else { gen_script(shell, &cmd, &case.bin) } {
                 Ok(s) => s,
                 Err(p) => {
                     let mut f = Failure::from_panic(&p);
